@@ -178,9 +178,10 @@ def run_transforms(ctx: Ctx) -> None:
     for mod, cls, kw in cases:
         ci = prog.cls(mod, cls)
         for kind in ("parameter", "buffer", "callable"):
-            ops = ["data", "grid", "condition", "inverse", "unlink", "link"]
+            ops = ["data", "grid", "condition", "inverse", "inverse:update_buffers", "inverse:link", "inverse:link+update_buffers", "inv",
+                   "unlink", "link"]
             for op in ops:
-                fm = prog.find_method(ci, op)
+                fm = prog.find_method(ci, op.split(":")[0])
                 if fm is None:
                     continue
                 ctx.fn(fm)
@@ -201,6 +202,10 @@ def run_transforms(ctx: Ctx) -> None:
                             r = it.method(t, "condition", Rat.atom("condX"))
                         elif op == "inverse":
                             r = it.method(t, "inverse")
+                        elif op.startswith("inverse:"):
+                            r = it.method(t, "inverse", link="link" in op, update_buffers="update_buffers" in op)
+                        elif op == "inv":
+                            r = it.getattr(t, "inv")
                         elif op == "unlink":
                             r = it.method(t, "unlink")
                         else:
